@@ -21,6 +21,8 @@ type HookCase struct {
 	Walk       []string          `json:"walk"`
 	Hooks      []envlab.HookSpec `json:"hooks"`
 	GoMaxProcs int               `json:"gomaxprocs,omitempty"`
+	// Overrun (C08): calls that take far longer than their declared timeout and succeed
+	Overrun bool `json:"overrun,omitempty"`
 	// C09 only
 	Target     int      `json:"target,omitempty"`     // index in Walk of the transition with the failing hooks
 	FailPoint  string   `json:"fail_point,omitempty"` // trigger expression shared by the failing hooks
